@@ -109,7 +109,7 @@ const c13Bound = 3000 // bus accesses tolerated after the context is done (a cor
 // C13 — cancellation of Run; whole binary under -race.
 func runC13(c *Ctx) {
 	mon.DiscardStdLog()
-	ncalls := c.Pick(2400, 100000)
+	ncalls := c.Pick(2400, 40000)
 	r := mon.NewRng(uint64(c.Seed) ^ 0xC13)
 	var evals, leaks, promptTrips int64
 	distinct := mon.NewDistinct(1_000_000)
@@ -421,7 +421,7 @@ func runC13(c *Ctx) {
 	// the moment they halt, with NO yields or sleeps in the callbacks, so that the
 	// HALT exit and the publication of the cancellation really overlap (a race on
 	// the hand-off variables only shows then)
-	nfree := c.Pick(1500, 40000)
+	nfree := c.Pick(1500, 20000)
 	var freeNil, freeErr int64
 	for i := 0; i < nfree && c.R.Violations() < 20; i++ {
 		if i%200 == 0 {
